@@ -95,6 +95,17 @@ def build_scenarios(prop, tier, rnd):
                 for pl in ([{"c": "C"}], [{"c": "C"}, {"c": "E"}], [{"c": "E"}, {"c": "C"}]):
                     add([{"op": "put", "k": 1, "c": "A"}], [[{"op": cl, "c": "C"}], other], deep, plant=pl)
         return sc
+    if prop == "C20":
+        # the log and the snapshot at every scheduling step of writers racing with checkpoints (explicit and rollover):
+        # decoded by the independent reader after every step; at quiescence snapshot + log = the state the handle shows
+        k = lambda i, c: {"op": "put", "k": i, "c": c}
+        ck = {"op": "ckpt"}
+        progs = [[[k(1, "A")], [ck]], [[k(1, "A"), k(2, "B")], [ck]], [[k(1, "B"), {"op": "del", "k": 1}], [ck, ck]],
+                 [[k(1, "A")], [k(2, "B")], [ck]], [[W[6]], [ck]], [[k(1, "A")], [k(1, "B")]], [[k(2, "A"), ck], [{"op": "del", "k": 1}]]]
+        for i, th in enumerate(progs if not q else progs[:5]):
+            for n in ([1, 2, 10000] if not q else [[1, 2, 10000][i % 3], [2, 1, 3][i % 3]]):
+                add(INITS[1 + i % 3], th, dict(dfs, runs=60 if q else 600), n=n, kt=["string", "u32"][i % 2])
+        return sc
     if prop == "C13":
         # transactions that are really open at the same time on one key: one is abandoned, the other commits
         fin = lambda c: [{"op": "txbegin", "k": 1, "c": c}, {"op": "txfinish", "k": 1, "c": c}]
@@ -188,14 +199,14 @@ def add_guided(sc, prop, tier):
     return sum(len(g["scheds"]) for g in groups.values())
 
 
-PROP_INV = {"C07": ["Inv_C07", "Inv_C04"], "C04": ["Inv_C04", "Inv_C07"], "C05": ["Inv_C05"], "C15": ["Inv_C15"], "C08": ["Inv_C04", "Inv_C07"], "C13": ["Inv_C04", "Inv_C07"]}
+PROP_INV = {"C20": [], "C07": ["Inv_C07", "Inv_C04"], "C04": ["Inv_C04", "Inv_C07"], "C05": ["Inv_C05"], "C15": ["Inv_C15"], "C08": ["Inv_C04", "Inv_C07"], "C13": ["Inv_C04", "Inv_C07"]}
 # C08 (clean-up never harms live data / a put that is committing) and C13 (an abandoned transaction does not disturb a
 # concurrent one on the same key) are judged on their own program classes with the C04/C07 conjuncts of TraceConc
 # OPFAIL: a put / remove / checkpoint / clean-up call returned an error although nothing was injected
 # C06: (a blob whose bytes do not match its name, an in-place write under cas/) is what makes reads return mixed bytes
 # C07 ("nothing more and nothing less" at the end of every schedule of an error-free program): a leaked blob is C07:,
 # a referenced content without its file is C04: - both are violations of C07
-PROP_TAGS = {"C07": ["C07:", "C04:", "OPFAIL:"], "C04": ["C04:", "C07:", "C06:", "OPFAIL:"], "C05": ["C05:", "C06:", "C04:", "OPFAIL:"], "C15": ["C15:"], "C08": ["C04:", "C07:", "C06:", "OPFAIL:"],
+PROP_TAGS = {"C20": ["C20:"], "C07": ["C07:", "C04:", "OPFAIL:"], "C04": ["C04:", "C07:", "C06:", "OPFAIL:"], "C05": ["C05:", "C06:", "C04:", "OPFAIL:"], "C15": ["C15:"], "C08": ["C04:", "C07:", "C06:", "OPFAIL:"],
              "C13": ["C04:", "C07:", "C05:", "C06:", "OPFAIL:"]}
 
 
@@ -217,7 +228,7 @@ def run_conc_check(prop, tier, replay=None, merge=False):
         scen = [json.load(open(replay))]
         nguided = 0
     else:
-        mc = run_mc(tier, PROP_INV[prop], liveness=(prop == "C15"))
+        mc = run_mc(tier, PROP_INV[prop], liveness=(prop == "C15")) if PROP_INV[prop] else {"states": 0, "transitions": 0, "violated": [], "configs": []}
         log(f"[{prop}] MCConc: {mc['states']} distinct states, violated={mc['violated']}")
         scen = build_scenarios(prop, tier, rnd)
         nguided = add_guided(scen, prop, tier) if prop in ("C04", "C05", "C07", "C15") else 0
